@@ -44,7 +44,9 @@ class Pi(schemes.interface.inverted_index_sse.InvertedIndexSSE):
         N = get_total_size(database)
         t = math.ceil(math.log2(N))
 
-        padded_database = copy.deepcopy(database)  # need to deep copy!! Otherwise, it will affect the original database
+        # every keyword needs a list of its own: the lists are padded in place below, and a deep copy would keep
+        # two keywords that share one list object in the caller's database sharing the copy as well
+        padded_database = {keyword: list(id_list) for keyword, id_list in database.items()}
 
         # If N is not a power of two, we need to pad DB to
         # satisfy this by adding some dummy keyword-identifier pairs.
